@@ -123,7 +123,7 @@ class FunctionNode(ConfigDict):
         params = list(sig.parameters.values())
         idx_to_name = []
         for p in params:
-            if p.kind == inspect.Parameter.VAR_POSITIONAL:
+            if p.kind in (inspect.Parameter.VAR_POSITIONAL, inspect.Parameter.VAR_KEYWORD):
                 break
             idx_to_name.append(p.name)
 
